@@ -20,8 +20,8 @@ Armed for the two conversion points on the read path: EventBuilder::add_payload_
 (h) bit addressing: every null / value bitmap access in the column layer has the shape `bytes[a / 8] (&|) (1 << (b % 8))`; the byte index and the bit index must be taken from the same row index
 (a and b are copies of one variable) - all writers and readers in engine::core::{column, write} are compared; `bytes[(i - start) / 8] & (1 << (i % 8))` reads another row's bit.
 """
-FLOOR = 12
-REQUIRED = ["C07.a1", "C07.a2", "C07.b", "C07.c", "C07.d", "C07.e", "C07.f", "C07.g", "C07.h", "C07.i", "C07.j", "C07.k"]
+FLOOR = 13
+REQUIRED = ["C07.a1", "C07.a2", "C07.b", "C07.c", "C07.d", "C07.e", "C07.f", "C07.g", "C07.h", "C07.i", "C07.j", "C07.k", "C07.l"]
 
 NUM = {"I64", "U64", "F64", "Bool"}
 
@@ -590,3 +590,59 @@ def run(ctx):
             bad.append(("null-string-written-as-empty", "ColumnGroupBuilder::add writes ScalarValue::Null as the empty string and the VarBytes block has no null bitmap: a null in an optional string field comes back as \"\" after FLUSH", sp(b, sw[0][0])))
         return bad
     ctx.run("C07.k", "K10 READS", "ColumnGroupBuilder::add / finish (VarBytes lane)", "a null string cell is distinguishable from an empty string on disk", k_)
+
+    def l_(inst):
+        """A sequence result is rebuilt from text zones: SequenceStreamMerger::batches_to_zones writes every cell as text and
+        EventBuilder::add_payload_field reads it back, recognising NULL by a marker text. Writer and reader must agree on the marker:
+        every cell-to-text function batches_to_zones uses prints Null as a text add_payload_field turns back into null."""
+        bad = []
+        eb = F.fn("EventBuilder::add_payload_field")
+        markers = {x for c in eb.calls if not c.cleanup for a_ in c.args if "k" in a_ and str(a_["k"]).startswith('"') for x in [a_["k"].strip('"')]}
+        for i_ in sorted(eb.live_blocks()):
+            t = eb.blocks[i_]["t"]
+            if t["t"] == "switch":
+                pass
+        # string constants add_payload_field compares the cell text with
+        for c in eb.calls:
+            if not c.cleanup and re.search(r"::eq$|str::eq|traits::eq", c.nname):
+                for a_ in c.args:
+                    for l in eb.origins(a_):
+                        if l[0] == "const":
+                            markers.add(l[1].strip('"'))
+        if "null" not in markers and "" not in markers:
+            raise AnchorMissing("the NULL marker text EventBuilder::add_payload_field recognises (found %s)" % sorted(markers)[:6])
+        bz = F.fn("SequenceStreamMerger::batches_to_zones")
+        fam = [bz] + [F.fn_exact(k) for k in F.keys() if k.startswith(bz.key.split("::{closure")[0] + "::{closure")]
+        renderers = {}
+        for f_ in fam:
+            for c in f_.calls:
+                if c.cleanup or not c.callee or not F.has(c.callee):
+                    continue
+                cal = F.fn_exact(c.callee)
+                sw = enum_switches_on(cal, lambda L: True, r"ScalarValue$")
+                if not sw or not re.search(r"String$", str(cal.locals[0].get("t", ""))):
+                    continue
+                a = arms(cal, sw[0][0])
+                nb = a.get("Null", set())
+                mk = set()
+                for i_ in nb:
+                    for st in cal.blocks[i_]["s"]:
+                        v = st.get("v") or {}
+                        if v.get("r") == "use" and str((v.get("o") or {}).get("k", "")).startswith('"'):
+                            mk.add(v["o"]["k"].strip('"'))
+                for x in cal.calls:
+                    if not x.cleanup and x.bb in nb:
+                        if x.nname.endswith("String::new"):
+                            mk.add("")
+                        for a_ in x.args:
+                            if "k" in a_ and str(a_["k"]).startswith('"'):
+                                mk.add(a_["k"].strip('"'))
+                renderers[c.nname] = (mk, sp(f_, c.bb))
+        if not renderers:
+            raise AnchorMissing("the cell-to-text function(s) of batches_to_zones")
+        inst.sites.append("reader recognises %s as NULL; writers: %s" % (sorted(m for m in markers if m in ("null", "")), {k.split("::")[-1]: sorted(v[0]) for k, v in renderers.items()}))
+        for nm, (mk, where) in sorted(renderers.items()):
+            if not mk or not (mk <= {"null"}):
+                bad.append(("null-marker-disagrees:%s" % nm.split("::")[-1], "batches_to_zones writes cells with %s, which prints NULL as %s; EventBuilder::add_payload_field turns only \"null\" back into null: a null in an optional field of a sequence result comes back as that text" % (nm.split("::")[-1], sorted(mk) or "?"), where))
+        return bad
+    ctx.run("C07.l", "K11 SIB", "SequenceStreamMerger::batches_to_zones / EventBuilder::add_payload_field", "the text a sequence result writes for NULL is the text its reader turns back into null", l_)
